@@ -47,3 +47,4 @@ META = dict(
     technique="regeneration + byte comparison (translation validation of the generator runs); independent spec "
               "extractor vs reflective dump of the real catalogue, compared in Python and by kernel evaluation in Lean 4",
 )
+READY = True
